@@ -15,9 +15,20 @@ package main
 //
 // Domain.  The reference answers only inside the fragment whose meaning is beyond doubt: dotted paths of
 // plain keys [A-Za-z0-9_-]+ (no list indices), the template micro-fragment `literal | {{ .a.b }}` of
-// scalars, parseAs none, distinct sibling names and orders, container queries with at most one key (Go
-// map order is unspecified beyond that).  Outside it the result is marked unsupported (with the reason)
-// and the harness compares nothing — shrink candidates and witness-search neighbours may leave the domain.
+// scalars — plus three actions that fail while the template is being EXECUTED: `{{ template "name" }}` (the
+// programs never define an associated template), `{{ fail "text" }}` and `{{ index .a.b N }}` of something
+// that is not there —, parseAs none, distinct sibling names and orders, container queries with at most one
+// key (Go map order is unspecified beyond that).  Outside it the result is marked unsupported (with the
+// reason) and the harness compares nothing — shrink candidates and witness-search neighbours may leave the
+// domain.
+//
+// Two rules the property states and that are easy to get wrong:
+//
+//   - a condition that is PRESENT (whatever its text: empty and white-space-only texts included) must render
+//     to a text that parses as a boolean; otherwise the action fails with that error — it is never treated
+//     as "no condition";
+//   - rendering either yields the whole text or fails: a template that fails half way through yields NO
+//     text, and a template operation whose rendering failed leaves the empty text at its path.
 //
 // Observations.  The reference produces the projection of a run that the property speaks about:
 //
@@ -75,6 +86,18 @@ func (s *refRun) emit(e ...any) {
 // refExec interprets Execute(root) on a fresh executor holding data and the given ext registrations.
 func refExec(data W, root *c12Act, fns map[string]string) (res *refRes) {
 	return refGuard(data, fns, func(s *refRun) []any { return []any{s.execAct(root)} })
+}
+
+// refExecActs interprets one Execute(action) call per entry on ONE executor (one data document, one
+// callable registry); every call is made, whatever the earlier ones returned.
+func refExecActs(data W, roots []c12Act, fns map[string]string) (res *refRes) {
+	return refGuard(data, fns, func(s *refRun) []any {
+		errs := make([]any, 0, len(roots))
+		for i := range roots {
+			errs = append(errs, s.execAct(&roots[i]))
+		}
+		return errs
+	})
 }
 
 // refExecSeq interprets one Execute(op) call per entry on one executor; every call is made, whatever
@@ -264,11 +287,17 @@ func refMergeKvs(c1, c2 map[string]any) map[string]any {
 // ---------------------------------------------------------------- templates (micro-fragment)
 
 type refSeg struct {
-	lit  string
-	keys []string // nil: literal
+	lit   string
+	keys  []string // nil: literal (or one of the two below)
+	fails bool     // an action that fails whenever it is executed
+	index bool     // `index .keys N`
 }
 
 var refIdentRe = regexp.MustCompile(`^[A-Za-z_][A-Za-z0-9_]*$`)
+
+// actions that fail at EXECUTION time whatever the data: an associated template nobody defined, sprig's fail
+var refAlwaysFailsRe = regexp.MustCompile(`^(template|fail) "[A-Za-z0-9 _-]*"$`)
+var refIndexRe = regexp.MustCompile(`^index (\.[A-Za-z_][A-Za-z0-9_]*(?:\.[A-Za-z_][A-Za-z0-9_]*)*) [0-9]+$`)
 
 func refParseTmpl(t string) []refSeg {
 	var segs []refSeg
@@ -288,6 +317,14 @@ func refParseTmpl(t string) []refSeg {
 		}
 		inner := strings.TrimSpace(t[:j])
 		t = t[j+2:]
+		if refAlwaysFailsRe.MatchString(inner) {
+			segs = append(segs, refSeg{fails: true})
+			continue
+		}
+		isIndex := false
+		if m := refIndexRe.FindStringSubmatch(inner); m != nil {
+			inner, isIndex = m[1], true
+		}
 		if !strings.HasPrefix(inner, ".") {
 			refOut("template action %q is outside the fragment", inner)
 		}
@@ -297,9 +334,33 @@ func refParseTmpl(t string) []refSeg {
 				refOut("template action %q is outside the fragment", inner)
 			}
 		}
-		segs = append(segs, refSeg{keys: keys})
+		segs = append(segs, refSeg{keys: keys, index: isIndex})
 	}
 	return segs
+}
+
+// `index .k1.k2 N`: indexing what is not there (a missing key, a null) is an execution error; indexing
+// anything else is outside the fragment
+func refEvalIndex(d map[string]any, keys []string) {
+	cur := d
+	for i, k := range keys {
+		n, has := cur[k]
+		if !has {
+			return
+		}
+		if i == len(keys)-1 {
+			if t, _, ok := refLeafOf(n); ok && t == "nil" {
+				return
+			}
+			break
+		}
+		c, ok := wireCont(n)
+		if !ok {
+			break
+		}
+		cur = c
+	}
+	refOut("template: index of a value that exists")
 }
 
 // {{ .k1.k2 }}: a missing key prints "<no value>" (so does a null scalar); a field of a scalar, a null
@@ -330,10 +391,17 @@ func refEvalRef(d map[string]any, keys []string) (string, bool) {
 	return "", false
 }
 
-// Render: (text, ok)
+// Render: (text, ok) — all of the text or, when any action fails, none of it
 func refRender(t string, d map[string]any) (string, bool) {
 	var sb strings.Builder
 	for _, s := range refParseTmpl(t) {
+		if s.fails {
+			return "", false
+		}
+		if s.index {
+			refEvalIndex(d, s.keys)
+			return "", false
+		}
 		if s.keys == nil {
 			sb.WriteString(s.lit)
 			continue
@@ -442,7 +510,8 @@ func refChildren(a *c12Act) []*c12Act {
 	return out
 }
 
-// the condition prologue: (skip, err)
+// the condition prologue: (skip, err).  A condition that is present — an empty or blank text is present —
+// must evaluate to a boolean: anything else fails the action.
 func (s *refRun) when(w *string) (bool, any) {
 	if w == nil {
 		return false, nil
